@@ -10,6 +10,7 @@ import (
 	"testing"
 
 	"github.com/parquet-go/parquet-go"
+	"github.com/parquet-go/parquet-go/encoding"
 	"pgregory.net/rapid"
 
 	"verifharness/gen"
@@ -625,6 +626,74 @@ func pageSelfCheck(p parquet.Page, vals []parquet.Value, col ref.Column, feat, w
 			}
 		}
 	}
-	p.Data()
+	data := p.Data()
+	if p.Dictionary() != nil {
+		return nil // the data of an indexed page are dictionary indexes
+	}
+	// Data() is what Type.Encode is given: it must hold the non-null values of THIS page, in order
+	var nonNull []parquet.Value
+	for _, v := range vals {
+		if !v.IsNull() {
+			nonNull = append(nonNull, v)
+		}
+	}
+	mismatch := func(i int, got any) *kit.Failure {
+		return kit.Failf("c08/page-data"+feat, "%s: Data() holds %v at position %d, the page delivered %v (of %d non-null values)", where, got, i, nonNull[i], len(nonNull))
+	}
+	short := func(n int) *kit.Failure {
+		return kit.Failf("c08/page-data"+feat, "%s: Data() holds %d values, the page delivered %d non-null values", where, n, len(nonNull))
+	}
+	switch data.Kind() {
+	case encoding.Boolean:
+		bits := data.Boolean()
+		if len(bits)*8 < len(nonNull) {
+			return short(len(bits) * 8)
+		}
+		for i, v := range nonNull {
+			if b := bits[i/8]>>(uint(i)%8)&1 == 1; b != v.Boolean() {
+				return mismatch(i, b)
+			}
+		}
+	case encoding.Int32:
+		xs := data.Int32()
+		if len(xs) != len(nonNull) {
+			return short(len(xs))
+		}
+		for i, v := range nonNull {
+			if v.Kind() == parquet.Int32 && xs[i] != v.Int32() {
+				return mismatch(i, xs[i])
+			}
+		}
+	case encoding.Int64:
+		xs := data.Int64()
+		if len(xs) != len(nonNull) {
+			return short(len(xs))
+		}
+		for i, v := range nonNull {
+			if v.Kind() == parquet.Int64 && xs[i] != v.Int64() {
+				return mismatch(i, xs[i])
+			}
+		}
+	case encoding.ByteArray:
+		b, offsets := data.ByteArray()
+		if len(offsets) != len(nonNull)+1 && !(len(offsets) == 0 && len(nonNull) == 0) {
+			return short(len(offsets) - 1)
+		}
+		for i, v := range nonNull {
+			if x := b[offsets[i]:offsets[i+1]]; !bytes.Equal(x, v.ByteArray()) {
+				return mismatch(i, x)
+			}
+		}
+	case encoding.FixedLenByteArray:
+		b, size := data.FixedLenByteArray()
+		if size <= 0 || len(b) != size*len(nonNull) {
+			return short(len(b) / max(size, 1))
+		}
+		for i, v := range nonNull {
+			if x := b[i*size : (i+1)*size]; !bytes.Equal(x, v.ByteArray()) {
+				return mismatch(i, x)
+			}
+		}
+	}
 	return nil
 }
